@@ -183,6 +183,15 @@ func cmdC14Child(args []string) {
 					}
 					fmt.Fprintf(out, "!propfail\tC14\tafter the Extend calls DetectReader and Detect disagree: Detect=%s DetectReader=%s err=%v input=%s limit=%d history=%s\n", chain, got, err, hx(x), l, args[0])
 				}
+				// rooted, finite, parameter-free ancestry - also for results below extensions of any depth
+				if parts := strings.Split(chain, ";"); !strings.HasPrefix(parts[len(parts)-1], "application/octet-stream|") || parts[len(parts)-1] == "CYCLE" {
+					fmt.Fprintf(out, "!propfail\tC02\tthe Parent() chain of the result does not end at application/octet-stream after Extend calls: chain=%s input=%s limit=%d history=%s\n", chain, hx(x), l, args[0])
+				}
+				for p, k := m.Parent(), 0; p != nil && k < 64; p, k = p.Parent(), k+1 {
+					if strings.Contains(p.String(), ";") {
+						fmt.Fprintf(out, "!propfail\tC02\tancestor %q of the result %q carries a parameter; input=%s history=%s\n", p.String(), m.String(), hx(x), args[0])
+					}
+				}
 				if mt, params, perr := mime.ParseMediaType(m.String()); perr != nil {
 					fmt.Fprintf(out, "!propfail\tC02\tresult %q is not accepted by mime.ParseMediaType after Extend calls (%v); input=%s history=%s\n", m.String(), perr, hx(x), args[0])
 				} else if len(params) > 0 {
